@@ -17,7 +17,7 @@ type c16Event struct {
 	Frac float64 `json:"f,omitempty"`
 }
 
-var c16Events = []c16Event{{"adv", 0.2}, {"adv", 0.5}, {"adv", 0.8}, {"adv", 1.0}, {"adv", 1.2}, {"send1", 0}, {"sendcmd", 0}, {"sendhalf", 0}, {"sendrest", 0}}
+var c16Events = []c16Event{{"adv", 0.2}, {"adv", 0.5}, {"adv", 0.8}, {"adv", 1.0}, {"adv", 1.2}, {"send1", 0}, {"sendcmd", 0}, {"sendhalf", 0}, {"sendrest", 0}, {"sendover", 0}}
 
 func c16Script(allow bool) []Req {
 	if allow {
@@ -87,13 +87,21 @@ func c16Run(t *testing.T, root string, T time.Duration, seq []int, allow bool) (
 					}
 				case "sendhalf":
 					n = (rem + 1) / 2
-				case "sendrest":
+				case "sendrest", "sendover":
 					n = rem
 				}
 				if n > rem {
 					n = rem
 				}
-				c.Send(cur[delivered : delivered+n])
+				piece := cur[delivered : delivered+n]
+				over := 0
+				if ev.Kind == "sendover" {
+					// one segment carries the rest of this request and the 16-byte command of the next one
+					next := script[(ri+1)%len(script)].Encode()
+					over = min(16, len(next)-1)
+					piece = append(append([]byte{}, piece...), next[:over]...)
+				}
+				c.Send(piece)
 				synctest.Wait()
 				delivered += n
 				trace = append(trace, sprintf("t=%v %s %d bytes (request %d: %d/%d)", now.Sub(start), ev.Kind, n, ri, delivered, len(cur)))
@@ -111,7 +119,7 @@ func c16Run(t *testing.T, root string, T time.Duration, seq []int, allow bool) (
 					}
 					ri++
 					cur = script[ri%len(script)].Encode()
-					delivered = 0
+					delivered = over
 					waitStart = time.Now() // the server re-arms when it starts waiting for the next request
 				} else if len(resp) != 0 {
 					fail("early-response", "step %d: %d response bytes before request %d was complete", step, len(resp), ri)
@@ -242,7 +250,7 @@ func c16DrainRun(t *testing.T, root string, T time.Duration, seq []int, want []b
 func TestC16(t *testing.T) {
 	r := NewReporter(t)
 	defer r.Done()
-	r.Rule("T in {100 ms, 1 s, 10 min} x all event sequences of length <= depth over {advance 0.2T,0.5T,0.8T,1.0T,1.2T; deliver 1 byte; deliver rest of the 16-byte command; deliver half of the rest; deliver rest of request} over a cyclic script {Stat, OpenFile, WriteFile+payload (refused), OpenDir} and, with writing enabled, {CreateFile, WriteFile+1000-byte payload, Stat, WriteFile+10 bytes}; sequences are cut at the first close; oracle: close at exactly (instant the server started waiting for the current request)+T iff the request is incomplete then, never earlier or later; completed requests answered; handle ledger empty after the cut; slow-drain family: all sequences over {advance 0.3T/0.55T, issue 40000-byte critical read, take 4096 bytes, take all} through a 4096-byte send buffer with write deadlines modelled, never cut while requests are < T apart; distinct by (T, executed event prefix)")
+	r.Rule("T in {100 ms, 1 s, 10 min} x all event sequences of length <= depth over {advance 0.2T,0.5T,0.8T,1.0T,1.2T; deliver 1 byte; deliver rest of the 16-byte command; deliver half of the rest; deliver rest of request; deliver rest of request together with the next command's 16 bytes} over a cyclic script {Stat, OpenFile, WriteFile+payload (refused), OpenDir} and, with writing enabled, {CreateFile, WriteFile+1000-byte payload, Stat, WriteFile+10 bytes}; sequences are cut at the first close; oracle: close at exactly (instant the server started waiting for the current request)+T iff the request is incomplete then, never earlier or later; completed requests answered; handle ledger empty after the cut; slow-drain family: all sequences over {advance 0.3T/0.55T, issue 40000-byte critical read, take 4096 bytes, take all} through a 4096-byte send buffer with write deadlines modelled, never cut while requests are < T apart; distinct by (T, executed event prefix)")
 	w := newWorld(t, "srv/root")
 	defer w.Cleanup()
 	w.File("a.txt", 10, 1)
